@@ -20,7 +20,7 @@ X = ('x',)
 FUNCS = ['sin', 'cos', 'tan', 'cot', 'sec', 'csc', 'sinh', 'cosh', 'tanh', 'coth', 'sech', 'csch',
          'exp', 'exp2', 'expm1', 'log', 'log2', 'log10', 'log1p', 'sqrt',
          'arcsin', 'arccos', 'arctan', 'arcsinh', 'arccosh', 'arctanh']
-BASES = [0.3, 0.7, -0.4, 1.3, 2.5, -1.2, 4.0]
+BASES = [0.3, 0.7, -0.4, 1.3, 2.5, -1.2, 4.0, -20.0, 25.0, -1e4, -0.96875, -0.99999904632568359375]
 SIGNS = list(itertools.product((1, -1), repeat=3))
 SIZES = [1e-8, 1e-5, 1e-3, 1e-1]
 HS = [1e-8, 1e-12, 1.7e-15]
